@@ -23,20 +23,31 @@ Refill(T, rps, burst, dt) == Min2(burst * 1000, T + rps * dt)
 MayAdmit(T) == T >= 1000
 MustAdmit(T) == T >= 2000
 
-\* design-level: the admitted count in any window obeys the bound
-CONSTANTS Rps, Burst, MaxT, Steps
-VARIABLES now, T, log   \* log: sequence of admission instants
-vars == <<now, T, log>>
-Init == now = 0 /\ T = Burst * 1000 /\ log = <<>>
+\* design-level: the admitted count in any window obeys the bound.
+\* A request reads the clock (its timestamp ts) and only then takes the limiter's lock, so timestamps may reach the
+\* bucket out of order (ts = now - d, d in Stale).  The bucket refills for max(0, ts - last) and keeps last = max(last, ts):
+\* a stale timestamp earns nothing and does not move the refill reference back.  The instant of a decision is the
+\* reference instant after it (no decision can be made before the newest clock reading the bucket has seen).
+CONSTANTS Rps, Burst, MaxT, Steps, Stale,
+          Rewind   \* FALSE: the rule above; TRUE: the defective variant last' = ts (TLC must find the bound broken)
+VARIABLES now, last, hi, T, log   \* hi: newest timestamp seen; log: decision instants of the admitted requests
+vars == <<now, last, hi, T, log>>
+Max2(a, b) == IF a > b THEN a ELSE b
+Init == now = 0 /\ last = 0 /\ hi = 0 /\ T = Burst * 1000 /\ log = <<>>
 Arrive ==
   /\ Len(log) < 6
-  /\ \E admit \in BOOLEAN :
-       /\ admit => MayAdmit(T)
-       /\ ~admit => ~MustAdmit(T) \/ TRUE
-       /\ T' = IF admit THEN T - 1000 ELSE T
-       /\ log' = IF admit THEN Append(log, now) ELSE log
+  /\ \E d \in Stale, admit \in BOOLEAN :
+       LET ts == now - d
+           T1 == Refill(T, Rps, Burst, Max2(0, ts - last))
+           l1 == IF Rewind THEN ts ELSE Max2(last, ts)
+           h1 == Max2(hi, ts)
+       IN /\ ts >= 0
+          /\ admit => MayAdmit(T1)
+          /\ T' = IF admit THEN T1 - 1000 ELSE T1
+          /\ last' = l1 /\ hi' = h1
+          /\ log' = IF admit THEN Append(log, h1) ELSE log
   /\ UNCHANGED now
-Tick == \E d \in Steps : now + d <= MaxT /\ now' = now + d /\ T' = Refill(T, Rps, Burst, d) /\ UNCHANGED log
+Tick == \E d \in Steps : now + d <= MaxT /\ now' = now + d /\ UNCHANGED <<last, hi, T, log>>
 Next == Arrive \/ Tick
 Spec == Init /\ [][Next]_vars
 \* in every window [a, b] of admissions: count <= burst + rps * (b - a) / 1000  (scaled by 1000)
